@@ -317,7 +317,7 @@ def report(mod, run: Run, scratch: bool = False) -> int:
                 print(f"VIOLATION property={run.property_id} replay={path}")
                 print(f"  kind={f.kind} signature={f.signature} case={f.case!r}\n  {f.detail}")
             shown += 1
-        code = 1 if code == 0 else code
+        code = 1  # a reported violation decides the exit code, also when some other cases could not be judged
     write_evidence(run, total_unknown, scratch=scratch)
     return code
 
